@@ -274,7 +274,7 @@ def shard(args):
 
 
 def run(tier, seed):
-    max_out, depth = (3, 7) if tier == 'quick' else (4, 9)
+    max_out, depth = (3, 7) if tier == 'quick' else (5, 13)
     shards = []
     for tid0 in (0, 0xFFFD):
         shards.append(('tcp', tid0, (1,), max_out, depth))
